@@ -19,6 +19,7 @@ RULE = ('Every nesting shape of {if, if-else, if-elif, if-elif-else, while, for,
         'is defined exactly once in the scope of the jump; every __bareScript* label is the target of >= 1 jump of its scope; lint_script '
         'reports no unknown/unused/redefined label; executing the model (conditions driven both ways) never raises Unknown jump label. '
         'Non-trivial: depth >= 2 with both an if-family and a loop construct. Distinct by source text.')
+RULE += ' Round 8: blocks whose plain (call-free) header conditions repeat - a loop directly guarded by an if / elif / while with the very same condition, siblings, inside for - in the global scope and in functions.'
 RULE += ' Also: the programs of C01 with all their later extensions (literal `while`, unreachable statements after break / continue, keyword-like and non-ASCII names, redefinitions). Round 5: the same source handed over in 2-4 parts cut at arbitrary lines must give the same lowering.'
 ASSUMPTIONS = ['user code never uses the reserved __bareScript prefix', 'schema validation is done by the published model (validate_script)']
 
@@ -108,6 +109,7 @@ def plan(tier):
     specs += [{'kind': 'deep', 'depth': d, 'n': 2500 if tier == 'quick' else 40000, 'k': i}
               for i, d in enumerate([3, 3, 4, 4] if tier == 'quick' else [4] * 10 + [5] * 6)]
     specs += [{'kind': 'programs', 'n': 1000 if tier == 'quick' else 12000, 'k': i} for i in range(6 if tier == 'quick' else 16)]
+    specs += [{'kind': 'guarded'}]
     return specs
 
 
@@ -134,7 +136,40 @@ def do_shape(ctx, shape, depth, patterns):
                  ['has-' + k for k in sorted(kinds & {'break', 'continue', 'both'})], {'shape': gs.shape_name(shape), 'placement': placement})
 
 
+PURE_CONDITIONS = ['xx < 3', 'xx', '!done', 'xx != yy', '(xx < 3)', 'xx < 3 && !done', 'arr', "ss == 'a'", 'xx + 1', '-xx', 'xx < yy * 2']
+STEP = ['xx = xx + 1', 'done = xx >= 3', 'yy = xx', "ss = 'b'", 'arr = null']
+
+
+def guarded_sources():
+    """Blocks whose header conditions are plain expressions (no call) that REPEAT: a loop guarded by an if / elif / while with the very same condition, the same
+    condition on sibling and nested headers, in the global scope and inside a function, with and without break / continue."""
+    for c in PURE_CONDITIONS:
+        for jump in ('', 'break', 'continue'):
+            inner = ['while %s:' % c] + ['    ' + ln for ln in STEP] + (['    if xx > 5:', '        ' + jump, '    endif'] if jump else []) + ['endwhile']
+            bodies = {
+                'if-guard': ['if %s:' % c] + ['    ' + ln for ln in inner] + ['endif'],
+                'elif-guard': ['if done:', "    systemLog('d')", 'elif %s:' % c] + ['    ' + ln for ln in inner] + ['else:', "    systemLog('e')", 'endif'],
+                'while-guard': ['while %s:' % c] + ['    ' + ln for ln in inner] + ['    break', 'endwhile'],
+                'for-then-if': ['for vv in arrayNew(1, 2):', '    if %s:' % c] + ['        ' + ln for ln in inner] + ['    endif', 'endfor'],
+                'siblings': ['if %s:' % c, "    systemLog('a')", 'endif'] + inner + ['if %s:' % c] + ['    ' + ln for ln in inner] + ['endif'],
+                'statement-between': ['if %s:' % c, "    systemLog('first')"] + ['    ' + ln for ln in inner] + ['endif'],
+            }
+            for name, body in sorted(bodies.items()):
+                pre = ['xx = 0', 'yy = 1', 'done = false', "ss = 'a'", 'arr = arrayNew(1)']
+                yield name + '/global', '\n'.join(pre + body) + '\n'
+                yield name + '/function', '\n'.join(['function ff(xx, yy, done, ss, arr):'] + ['    ' + ln for ln in body] + ['    return xx', 'endfunction', "ff(0, 1, false, 'a', arrayNew(1))"]) + '\n'
+
+
 def run_shard(ctx, spec):
+    if spec['kind'] == 'guarded':
+        for name, src in guarded_sources():
+            try:
+                check_source(src, ())
+            except Violation as v:
+                ctx.violation(v)
+            ctx.case(digest(src), True, ['repeated-pure-condition', 'form:' + name], {'form': name, 'source': src})
+        ctx.exhaustive['%d pure conditions x {no jump, break, continue} x 6 guard forms x {global, function}' % len(PURE_CONDITIONS)] = True
+        return
     if spec['kind'] == 'shapes':
         ix = 0
         for depth in range(1, spec['depth'] + 1):
